@@ -107,10 +107,12 @@ partial def jvJson : JV → Json
   | .arr xs => .arr (xs.map jvJson).toArray
   | .obj kvs => obj (kvs.map (fun (k, v) => (k, jvJson v)))
 
+def sortStrs (l : List String) : List String := (l.toArray.qsort (· < ·)).toList
+
 def outcomeJson (o : Outcome) : Json :=
   match o with
-  | .value j tr => obj [("ok", jvJson j), ("trace", ofStrs tr)]
-  | .error cls msg tr => obj [("err", .str cls), ("trace", ofStrs tr), ("_msg", .str msg)]
+  | .value j tr => obj [("ok", jvJson j), ("trace", ofStrs (sortStrs tr))]
+  | .error cls msg tr => obj [("err", .str cls), ("trace", ofStrs (sortStrs tr)), ("_msg", .str msg)]
   | .undecided why => obj [("skip", .bool true), ("_why", .str why)]
 
 def srcJson : Bind.Src → Json
